@@ -195,11 +195,15 @@ def gen_spawn(d: D, prof: dict, depth: int, op: Optional[dict] = None) -> dict:
         op["n"] = n_hint = d.i(0, prof["max_elems"])
         if d.p(0.85):
             op["nc"] = d.i(1, prof["max_nc"])
+            if d.p(0.04):
+                op["nc"] = "inf"
         if d.p(0.35):
             op["shapes"] = [d.i(0, 6) for _ in range(d.i(1, 3))]
         if d.p(prof.get("p_iter_raise", 0.0)) and op["n"]:
             op["iter_raise_at"] = d.i(0, op["n"] - 1)
             op["fault_kind"] = d.i(0, 4)
+        if d.p(0.12):
+            op["as_cursor"] = True          # an iterable whose __iter__ is observable (not its own iterator)
         if d.p(0.1):
             op["as_list"] = True
         elif depth == 0 and d.p(prof["p_embedded"] * 0.5) and op["n"]:
@@ -253,6 +257,8 @@ def gen_op(d: D, prof: dict, name: str, depth: int = 0) -> dict:
             op["rel"] = d.pick(prof.get("stop_rel", [-3, -2, -1, 0, 1, 2, 3]))
         else:
             op["n"] = d.i(-2, 5)
+            if d.p(0.05):
+                op["n"] = d.pick([2 ** 70, "inf"])
     elif name in ("flush", "close"):
         r = d.i(0, 3)
         if r == 0:
@@ -275,6 +281,7 @@ def gen_op(d: D, prof: dict, name: str, depth: int = 0) -> dict:
     elif name == "new_pool":
         op.pop("pool", None)
         op["size"] = d.pick([None, 1, 2, 3])
+        op["factory"] = d.p(0.4)
     elif name == "bad_pool":
         op["v"] = d.i(0, 2)
         op["simple"] = d.p(0.3)
@@ -288,6 +295,8 @@ def gen_pool(d: D, prof: dict) -> dict:
         spec["name"] = "named%d" % d.i(0, 9)
     elif d.p(0.08):
         spec["name"] = d.pick(["100%", "a%%b", "%s", "%d-pool", "x y", "näme", "{0}", "p_Task-1"]) + str(d.i(0, 3))
+    if spec["size"] is not None and d.p(0.1):
+        spec["size_as_float"] = True          # 2.0 is as good a size as 2 (the parameter is annotated float)
     if cls == "SimpleTaskPool":
         spec["worker"] = gen_worker(d, prof, 1, prof["max_num"])
         spec["worker"].pop("call_op", None)
